@@ -10,7 +10,7 @@ re-checked by `decide`.
 
 Precedence: `pratt_print`, `pratt_print_redundant`, `layout_irrelevant_partial` and the
 corollaries `left_assoc`, `tighter_first`, `prefix_sign_tightest`,
-`not_takes_comparison`. Semantics: `eval_refines_spec`, `wrong_kind_*`.
+`not_takes_comparison`. Semantics: `eval_eq_quirk_spec`, `eval_refines_spec_partial`, `wrong_kind_*`.
 -/
 namespace Ecal.Props.C03
 open Ecal.Expr Ecal.Expr.Spec
@@ -229,55 +229,96 @@ example : Prints (.bin .plus tPlus (.atom n1) (.bin .times tTimes (.atom n2) (.a
 section Sem
 variable {N : Type} (G : Cfg N)
 
-theorem binOp_errL (o : BinOp) (n1 n2 : Str) (k : ErrKind) (s : Str) (o2 : Out N) :
-    Impl.binOp G o n1 n2 (.err k s) o2 = .err k s := by
+theorem binOp_errL (o : BinOp) (n1 n2 : Str) (k : ErrKind) (s : Str) (p : Option Nat) (o2 : Out N) :
+    Impl.binOp G o n1 n2 (.err k s p) o2 = .err k s p := by
   cases o <;> simp [Impl.binOp, Impl.numOp, Impl.cmpOp, Impl.strOp, Impl.genOp, Impl.boolOp, Impl.listOp, Impl.likeOp]
 
-theorem binOp_errR (o : BinOp) (n1 n2 : Str) (v : Val N) (k : ErrKind) (s : Str) :
-    Impl.binOp G o n1 n2 (.val v) (.err k s) = .err k s := by
+theorem binOp_errR (o : BinOp) (n1 n2 : Str) (v : Val N) (k : ErrKind) (s : Str) (p : Option Nat) :
+    Impl.binOp G o n1 n2 (.val v) (.err k s p) = .err k s p := by
   cases o <;> simp [Impl.binOp, Impl.numOp, Impl.cmpOp, Impl.strOp, Impl.genOp, Impl.boolOp, Impl.listOp, Impl.likeOp]
 
 theorem binOp_val (o : BinOp) (n1 n2 : Str) (v1 v2 : Val N) :
-    Impl.binOp G o n1 n2 (.val v1) (.val v2) = Spec.binSem G o n1 n2 v1 v2 := by
+    Impl.binOp G o n1 n2 (.val v1) (.val v2) = (Spec.binSem G o n1 n2 v1 v2).quirk := by
   cases o <;> cases v1 <;> cases v2 <;>
     simp [Impl.binOp, Impl.numOp, Impl.cmpOp, Impl.strOp, Impl.genOp, Impl.boolOp, Impl.listOp, Impl.likeOp,
-      Impl.modOp, Spec.binSem, Spec.arith, Spec.compare, Spec.logic, Spec.member]
+      Impl.modOp, Spec.binSem, Spec.arith, Spec.compare, Spec.logic, Spec.member, Out.quirk, quirkNode] <;>
+    (try split) <;> simp [Out.quirk, quirkNode]
 
 theorem preOp_val (p : PreOp) (n : Str) (v : Val N) :
-    Impl.preOp G.C p n (.val v) = Spec.preSem G.C p n v := by
-  cases p <;> cases v <;> simp [Impl.preOp, Impl.numVal, Impl.boolVal, Spec.preSem]
+    Impl.preOp G.C p n (.val v) = (Spec.preSem G.C p n v).quirk := by
+  cases p <;> cases v <;> simp [Impl.preOp, Impl.numVal, Impl.boolVal, Spec.preSem, Out.quirk, quirkNode]
 
-theorem preOp_err (p : PreOp) (n : Str) (k : ErrKind) (s : Str) :
-    Impl.preOp G.C p n (.err k s) = (.err k s : Out N) := by
+theorem preOp_err (p : PreOp) (n : Str) (k : ErrKind) (s : Str) (q : Option Nat) :
+    Impl.preOp G.C p n (.err k s q) = (.err k s q : Out N) := by
   cases p <;> simp [Impl.preOp, Impl.numVal, Impl.boolVal]
 
+theorem quirk_val (o : Out N) (v : Val N) (h : o.quirk = .val v) : o = .val v := by
+  cases o <;> simp_all [Out.quirk]
+
+def quirkE : ErrKind × Str × Option Nat → ErrKind × Str × Option Nat
+  | (k, s, p) => (k, s, quirkNode k p)
+
 mutual
-/-- C03 (semantics): evaluation as the interpreter does it (helper functions, evaluation
-    order, comparison falling back to text comparison on any error of the numeric
-    attempt, both operands of and/or evaluated) computes, for EVERY tree, variable
-    environment, numeric carrier and regular-expression oracle, what the per-operator
-    definition `Spec.eval` says. -/
-theorem eval_refines_spec : ∀ (e : Expr), Impl.eval G e = Spec.eval G e
-  | .atom a => by simp [Impl.eval, Spec.eval]
-  | .list its => by simp only [Impl.eval, Spec.eval, evalItems_refines_spec its]
+/-- evaluation as the interpreter does it = the reference semantics, except for the node an
+    error about the right operand of and/or/in/notin is attached to (`Out.quirk`) -/
+theorem eval_eq_quirk_spec : ∀ (e : Expr), Impl.eval G e = (Spec.eval G e).quirk
+  | .atom a => by simp [Impl.eval, Spec.eval, Out.quirk]
+  | .list its => by
+    simp only [Impl.eval, Spec.eval, evalItems_eq its]
+    cases Spec.evalItems G its with
+    | ok vs => simp [Out.quirk, Except.mapError]
+    | error x => obtain ⟨k, s, p⟩ := x; simp [Out.quirk, Except.mapError, quirkE]
   | .bin o t l r => by
-    simp only [Impl.eval, Spec.eval, eval_refines_spec l, eval_refines_spec r]
-    cases Spec.eval G l with
-    | err k s => simp [binOp_errL]
+    simp only [Impl.eval, Spec.eval, eval_eq_quirk_spec l, eval_eq_quirk_spec r]
+    cases hl : Spec.eval G l with
+    | err k s p => simp [Out.quirk, binOp_errL]
     | val v1 =>
-      cases Spec.eval G r with
-      | err k s => simp [binOp_errR]
-      | val v2 => simp [binOp_val]
+      cases hr : Spec.eval G r with
+      | err k s p => simp [Out.quirk, binOp_errR]
+      | val v2 => simp [Out.quirk, binOp_val]
   | .pre p t x => by
-    simp only [Impl.eval, Spec.eval, eval_refines_spec x]
+    simp only [Impl.eval, Spec.eval, eval_eq_quirk_spec x]
     cases Spec.eval G x with
-    | err k s => simp [preOp_err]
-    | val v => simp [preOp_val]
-theorem evalItems_refines_spec : ∀ (its : Items), Impl.evalItems G its = Spec.evalItems G its
-  | .nil => by simp [Impl.evalItems, Spec.evalItems]
+    | err k s q => simp [Out.quirk, preOp_err]
+    | val v => simp [Out.quirk, preOp_val]
+/-- the list literal: as the reference, with the errors of the elements as the code attaches them -/
+theorem evalItems_eq : ∀ (its : Items), Impl.evalItems G its = (Spec.evalItems G its).mapError quirkE
+  | .nil => by simp [Impl.evalItems, Spec.evalItems, Except.mapError]
   | .cons e rest => by
-    simp only [Impl.evalItems, Spec.evalItems, eval_refines_spec e, evalItems_refines_spec rest]
+    simp only [Impl.evalItems, Spec.evalItems, eval_eq_quirk_spec e, evalItems_eq rest]
+    cases Spec.eval G e with
+    | err k s p => simp [Out.quirk, Except.mapError, quirkE]
+    | val v =>
+      cases Spec.evalItems G rest with
+      | ok vs => simp [Out.quirk, Except.mapError]
+      | error x => simp [Out.quirk, Except.mapError]
 end
+
+theorem core_quirk (o : Out N) : o.quirk.core = o.core := by
+  cases o <;> rfl
+
+/- Full statement (FALSE for the code as it is — known finding `error-node-left-operand`):
+     `hasAssign e = false → Impl.eval G e = Spec.eval G e`.
+   It fails exactly where `Out.quirk` is not the identity: `true and 5`, `1 in 5` attach the
+   error naming operand 1 to child 0 (pinned by the existing test TestOperatorRuntimeErrors).
+   Proved: equality of value / error kind / named operand (`eval_refines_spec_partial`) and the
+   exact equation with the deviation spelled out (`eval_eq_quirk_spec`). -/
+/-- C03 (semantics): for every tree without assignment, every environment, numeric carrier
+    and regular-expression oracle, evaluation as the interpreter does it (helper functions,
+    evaluation order, comparison falling back to text on ANY error of the numeric attempt,
+    both operands of and/or evaluated) yields the value, or the error kind and the named
+    operand, of the per-operator reference semantics. -/
+theorem eval_refines_spec_partial (e : Expr) (_h : hasAssign e = false) :
+    (Impl.eval G e).core = (Spec.eval G e).core := by
+  rw [eval_eq_quirk_spec, core_quirk]
+
+/-- … and values are exactly the reference's values -/
+theorem eval_value_iff (e : Expr) (_h : hasAssign e = false) (v : Val N) :
+    Impl.eval G e = .val v ↔ Spec.eval G e = .val v := by
+  rw [eval_eq_quirk_spec]
+  constructor
+  · exact quirk_val _ v
+  · intro h; rw [h]; rfl
 
 def BinOp.arith : BinOp → Bool
   | .plus | .minus | .times | .div | .divint | .modint => true
@@ -285,6 +326,10 @@ def BinOp.arith : BinOp → Bool
 
 def BinOp.logic : BinOp → Bool
   | .and | .or => true
+  | _ => false
+
+def BinOp.member : BinOp → Bool
+  | .isin | .notin => true
   | _ => false
 
 def Val.isNum : Val N → Bool
@@ -295,47 +340,61 @@ def Val.isBool : Val N → Bool
   | .bool _ => true
   | _ => false
 
+def Val.isList : Val N → Bool
+  | .list _ => true
+  | _ => false
+
 def Out.isVal : Out N → Bool
   | .val _ => true
-  | .err _ _ => false
+  | .err _ _ _ => false
 
 /-- C03 (operand kinds, left): an arithmetic operator whose LEFT operand evaluates to
-    something that is not a number yields the error `NotANumber` naming that operand
-    (whenever the right operand evaluates at all). -/
+    something that is not a number yields the error `NotANumber` naming that operand and
+    attached to it (whenever the right operand evaluates at all). -/
 theorem wrong_kind_left_arith (o : BinOp) (t : Str) (l r : Expr) (v1 v2 : Val N) (ho : BinOp.arith o = true)
     (h1 : Impl.eval G l = .val v1) (h2 : Impl.eval G r = .val v2) (hk : Val.isNum v1 = false) :
-    Impl.eval G (.bin o t l r) = .err .notANumber (opName l) := by
+    Impl.eval G (.bin o t l r) = .err .notANumber (opName l) (some 0) := by
   simp only [Impl.eval, h1, h2]
   cases o <;> simp [BinOp.arith] at ho <;> cases v1 <;> simp [Val.isNum] at hk <;>
     simp [Impl.binOp, Impl.numOp]
 
 /-- C03 (operand kinds, right): … and with a number on the left and a non-number on the
-    right it names the right operand. -/
+    right it names the right operand and is attached to it. -/
 theorem wrong_kind_right_arith (o : BinOp) (t : Str) (l r : Expr) (a : N) (v2 : Val N) (ho : BinOp.arith o = true)
     (h1 : Impl.eval G l = .val (.num a)) (h2 : Impl.eval G r = .val v2) (hk : Val.isNum v2 = false) :
-    Impl.eval G (.bin o t l r) = .err .notANumber (opName r) := by
+    Impl.eval G (.bin o t l r) = .err .notANumber (opName r) (some 1) := by
   simp only [Impl.eval, h1, h2]
   cases o <;> simp [BinOp.arith] at ho <;> cases v2 <;> simp [Val.isNum] at hk <;>
     simp [Impl.binOp, Impl.numOp]
 
-/-- C03 (operand kinds, and/or): `and`/`or` on a non-boolean yield `NotABoolean` naming the
+/-- C03 (operand kinds, and/or): `and`/`or` on a non-boolean yield `NotABoolean` NAMING the
     first offending operand — also when the other operand alone would decide the result
-    (`false and 5`, `true or 5`). -/
+    (`false and 5`, `true or 5`). The error is attached to child 0 in both cases: for the right
+    operand that is the known deviation `error-node-left-operand`. -/
 theorem wrong_kind_logic (o : BinOp) (t : Str) (l r : Expr) (v1 v2 : Val N) (ho : BinOp.logic o = true)
     (h1 : Impl.eval G l = .val v1) (h2 : Impl.eval G r = .val v2)
     (hk : Val.isBool v1 = false ∨ Val.isBool v2 = false) :
     Impl.eval G (.bin o t l r) =
-      .err .notABoolean (if Val.isBool v1 = false then opName l else opName r) := by
+      .err .notABoolean (if Val.isBool v1 = false then opName l else opName r) (some 0) := by
   simp only [Impl.eval, h1, h2]
   cases o <;> simp [BinOp.logic] at ho <;> cases v1 <;> cases v2 <;> simp [Val.isBool] at hk <;>
     simp [Impl.binOp, Impl.boolOp, Val.isBool]
 
+/-- C03 (operand kinds, in/notin): a right operand that is not a list yields `NotAList`
+    NAMING it (attached to child 0: known deviation `error-node-left-operand`). -/
+theorem wrong_kind_member (o : BinOp) (t : Str) (l r : Expr) (v1 v2 : Val N) (ho : BinOp.member o = true)
+    (h1 : Impl.eval G l = .val v1) (h2 : Impl.eval G r = .val v2) (hk : Val.isList v2 = false) :
+    Impl.eval G (.bin o t l r) = .err .notAList (opName r) (some 0) := by
+  simp only [Impl.eval, h1, h2]
+  cases o <;> simp [BinOp.member] at ho <;> cases v2 <;> simp [Val.isList] at hk <;>
+    simp [Impl.binOp, Impl.listOp]
+
 /-- C03 (operand kinds, prefix): `-x`, `+x` on a non-number and `not x` on a non-boolean
-    are errors naming `x`. -/
+    are errors naming `x`, attached to `x`. -/
 theorem wrong_kind_prefix (p : PreOp) (t : Str) (x : Expr) (v : Val N) (h : Impl.eval G x = .val v)
     (hk : (if p = .not then Val.isBool v else Val.isNum v) = false) :
     Impl.eval G (.pre p t x) =
-      .err (if p = .not then .notABoolean else .notANumber) (opName x) := by
+      .err (if p = .not then .notABoolean else .notANumber) (opName x) (some 0) := by
   simp only [Impl.eval, h]
   cases p <;> cases v <;> simp [Val.isBool, Val.isNum] at hk <;>
     simp [Impl.preOp, Impl.numVal, Impl.boolVal]
@@ -350,13 +409,13 @@ theorem wrong_kind_is_error (o : BinOp) (t : Str) (l r : Expr) (ho : BinOp.arith
   rcases hk with ⟨v, hv, hk⟩ | ⟨v, hv, hk⟩
   · rw [hv]
     cases hr : Impl.eval G r with
-    | err k s => simp [binOp_errR, Out.isVal]
+    | err k s p => simp [binOp_errR, Out.isVal]
     | val v2 =>
       cases o <;> simp [BinOp.arith, BinOp.logic] at ho <;> cases v <;> simp [BinOp.arith, Val.isNum, Val.isBool] at hk <;>
         cases v2 <;> simp [Impl.binOp, Impl.numOp, Impl.boolOp, Out.isVal]
   · rw [hv]
     cases hl : Impl.eval G l with
-    | err k s => simp [binOp_errL, Out.isVal]
+    | err k s p => simp [binOp_errL, Out.isVal]
     | val v1 =>
       cases o <;> simp [BinOp.arith, BinOp.logic] at ho <;> cases v <;> simp [BinOp.arith, Val.isNum, Val.isBool] at hk <;>
         cases v1 <;> simp [Impl.binOp, Impl.numOp, Impl.boolOp, Out.isVal]
@@ -386,7 +445,7 @@ def toy : Cfg Int where
   var := fun _ => .null
 
 def isErr {N : Type} (k : ErrKind) (name : Str) : Out N → Bool
-  | .err k' n => k = k' ∧ n = name
+  | .err k' n _ => k = k' ∧ n = name
   | .val _ => false
 
 def isBoolVal {N : Type} (b : Bool) : Out N → Bool
